@@ -306,13 +306,17 @@ class Compiler:
 
         indexes = []
         names = {target.name: index for index, target in enumerate(targets)}
+        # Only targets appearing in the SELECT targets list can be
+        # referenced by index: the invisible targets added by the GROUP
+        # BY and ORDER BY clauses are not part of the result.
+        n_targets = len([target for target in targets if target.name is not None])
 
         for column in pivot_by.columns:
 
             # Process target references by index.
             if isinstance(column, int):
                 index = column - 1
-                if not 0 <= index < len(targets):
+                if not 0 <= index < n_targets:
                     raise CompilationError(f'invalid PIVOT BY column index {column}')
                 indexes.append(index)
                 continue
